@@ -430,6 +430,83 @@ func vOracle(out *vOut, r *rand.Rand, s vSnap, cfg *Config) {
 	}
 }
 
+// (8) the same clause ACROSS pools: validateBGPAdvPerPool looks at one pool at a time.  For address
+// entries that are one CIDR the aggregate stays inside the entry, so two pools can never share
+// a route (theorem C08_disjoint_cidr_entries_share_no_route); for range-written entries they
+// can (known finding, C08_localpref_cross_pool_refuted) - the signature tells the two apart.
+func vOracleCrossPool(out *vOut, s vSnap, cfg *Config) {
+	type ann struct {
+		pool   string
+		adv    *BGPAdvertisement
+		x      vRange // the parsed CIDR the sample address comes from
+		oneCID bool   // ... which belongs to an entry that is a single CIDR
+		route  vRange
+	}
+	written := map[string][]vRange{}
+	single := map[string][]bool{}
+	for _, p := range s.Pools {
+		for _, a := range p.Addrs {
+			if w, ok := vWritten(a); ok {
+				written[vPoolNames[p.Name]] = append(written[vPoolNames[p.Name]], w)
+				single[vPoolNames[p.Name]] = append(single[vPoolNames[p.Name]], len(vBlocks(w.fam, w.lo, w.hi)) == 1)
+			}
+		}
+	}
+	var anns []ann
+	for name, p := range cfg.Pools.ByName {
+		for _, c := range p.CIDR {
+			x, ok := vNetRange(c)
+			if !ok {
+				continue
+			}
+			one := false
+			for i, w := range written[name] {
+				if x.within(w) {
+					one = single[name][i]
+				}
+			}
+			for _, a := range p.BGPAdvertisements {
+				l := a.AggregationLength
+				if x.fam == 6 {
+					l = a.AggregationLengthV6
+				}
+				if l < 0 || l > vW(x.fam) {
+					continue
+				}
+				anns = append(anns, ann{name, a, x, one, vCidrRange(x.fam, x.lo, l)}, ann{name, a, x, one, vCidrRange(x.fam, x.hi, l)})
+			}
+		}
+	}
+	for i, a := range anns {
+		for _, b := range anns[i+1:] {
+			if a.pool == b.pool || a.adv.LocalPref == b.adv.LocalPref || a.route.fam != b.route.fam ||
+				a.route.lo.Cmp(b.route.lo) != 0 || a.route.hi.Cmp(b.route.hi) != 0 {
+				continue
+			}
+			out.Stat("cross_pool_same_route_pairs", 1)
+			common := false
+			for n := range a.adv.Nodes {
+				common = common || b.adv.Nodes[n]
+			}
+			peers := len(a.adv.Peers) == 0 || len(b.adv.Peers) == 0
+			for _, x := range a.adv.Peers {
+				for _, y := range b.adv.Peers {
+					peers = peers || x == y
+				}
+			}
+			if !common || !peers {
+				continue
+			}
+			sig := "c08-localpref-collision-across-range-pools"
+			if a.oneCID && b.oneCID {
+				sig = "c08-localpref-collision-across-cidr-pools"
+			}
+			out.Fail(sig, fmt.Sprintf("pools %s and %s: advertisements %s (localpref %d) and %s (localpref %d) both announce %s - %s (IPv%d) on a common node to a common peer: one route, two local preferences", a.pool, b.pool, a.adv.Name, a.adv.LocalPref, b.adv.Name, b.adv.LocalPref, vText(a.route.fam, a.route.lo, false), vText(a.route.fam, a.route.hi, false), a.route.fam), map[string]any{"snap": s})
+			return
+		}
+	}
+}
+
 // ---------------------------------------------------------------- directed layouts
 type vBlock struct {
 	lo  *big.Int
@@ -704,12 +781,18 @@ func vCorpusCfg() []vSnap {
 	v6b := new(big.Int).SetBytes(net.ParseIP("fc00:f853:ccd:e799::").To16()).String()
 	dualPool := mk(0, vAddr{Kind: 0, Fam: 4, Fam2: 4, A: ip("10.20.30.0"), Len: 24, Text: "10.20.30.0/24"},
 		vAddr{Kind: 0, Fam: 6, Fam2: 6, A: v6b, Len: 112, Text: "fc00:f853:ccd:e799::/112"})
-	i24, i32, i120, i128 := 24, 32, 120, 128
+	i24, i30, i32, i120, i128 := 24, 30, 32, 120, 128
 	nodes := []vNode{{Name: 0}, {Name: 1}}
 	d1 := vSnap{Modelled: true, DualClash: 2, Nodes: nodes, Pools: []vPool{dualPool}, BGP: []vBGP{{Name: 0, LP: 100, Agg4: &i24, Agg6: &i128}, {Name: 1, LP: 200, Agg4: &i32, Agg6: &i128}}}
 	d2 := vSnap{Modelled: true, DualClash: 3, Nodes: nodes, Pools: []vPool{dualPool}, BGP: []vBGP{{Name: 0, LP: 100, Agg4: &i32, Agg6: &i120}, {Name: 1, LP: 200, Agg4: &i32, Agg6: &i128}}}
 	d3 := vSnap{Modelled: true, DualClash: 4, Nodes: nodes, Pools: []vPool{dualPool}, BGP: []vBGP{{Name: 0, LP: 100, Agg4: &i24, Agg6: &i120}, {Name: 1, LP: 200, Agg4: &i32, Agg6: &i128}}}
-	return []vSnap{f4, f4b, f5, f5b, f4c, d1, d2, d3}
+	// known finding: two range-written pools whose aggregates coincide (10.0.0.8/30), one
+	// advertisement each, local preference 100 / 200: accepted by config.For
+	x1 := vSnap{Modelled: true, Nodes: []vNode{{Name: 0}}, Pools: []vPool{
+		mk(0, vAddr{Kind: 2, Fam: 4, Fam2: 4, A: ip("10.0.0.10"), B: ip("10.0.0.15"), Text: "10.0.0.10-10.0.0.15"}),
+		mk(1, vAddr{Kind: 2, Fam: 4, Fam2: 4, A: ip("10.0.0.4"), B: ip("10.0.0.9"), Text: "10.0.0.4-10.0.0.9"})},
+		BGP: []vBGP{{Name: 0, LP: 100, Agg4: &i30, Pools: []int{0}}, {Name: 1, LP: 200, Agg4: &i30, Pools: []int{1}}}}
+	return []vSnap{f4, f4b, f5, f5b, f4c, d1, d2, d3, x1}
 }
 
 // ---------------------------------------------------------------- address strings on their own
@@ -863,6 +946,7 @@ func TestVerifCfg(t *testing.T) {
 			}
 			out.Stat("accepted", 1)
 			vOracle(out, r, s, cfg)
+			vOracleCrossPool(out, s, cfg)
 			res = cSome(vObsCoq(vProject(cfg)))
 			for _, p := range s.Pools {
 				for _, a := range p.Addrs {
@@ -886,7 +970,7 @@ func TestVerifCfg(t *testing.T) {
 				}
 			}
 		}
-		out.Case(id, "for", cCtor("CFor", cNi(id), vSnapCoq(s), res), map[string]any{"snap": s, "accepted": err == nil})
+		out.Case(id, "for", cCtor("CFor", cNi(id), vSnapCoq(s), res), map[string]any{"snap": s, "accepted": err == nil, "err": fmt.Sprint(err)})
 		if s.Directed == "" && (id%4 < 2 || vThorough()) { // the whole Config on half of the random snapshots: Model/CfgFull.v full_for
 			id++
 			resF := cNone
